@@ -84,6 +84,7 @@ def rand_program(rng, sim, length, allow_hash=True):
         k = rng.choice(["add", "dup", "node", "node", "node", "edge", "edge", "edge", "setstate", "setstate", "setweight", "setweight",
                         "getstate", "getweight", "nhist", "ehist", "nshist", "pred", "succ", "neigh", "nodes", "switch", "depth", "print", "pdiff"])
         if k == "add" and sim.gs and rng.random() < 0.7: k = "node"
+        if not sim.gs and rng.random() < 0.8: k = "add"
         if k == "add": prog.append(I("GRAPH.ADD")); sim.add()
         elif k == "dup": prog.append(I("GRAPH.DUP")); sim.dup()
         elif k == "node":
